@@ -16,19 +16,27 @@ type legacyHandler struct {
 	player   Player
 	eventMgr event.Manager
 
+	// decides whether a declined forced pack disconnects the player,
+	// differs between handler versions
+	shouldDisconnect func(e *PlayerResourcePackStatusEvent) bool
+
 	rwMutex
-	prevResourceResponse bool
+	// Whether the client accepted (true) or declined (false) its last prompt,
+	// nil as long as it has not answered any prompt yet.
+	prevResourceResponse *bool
 	outstandingPacks     *deque.Deque[*Info]
 	pendingPack          *Info
 	appliedPack          *Info
 }
 
 func newLegacyHandler(player Player, eventMgr event.Manager) *legacyHandler {
-	return &legacyHandler{
+	h := &legacyHandler{
 		player:           player,
 		eventMgr:         eventMgr,
 		outstandingPacks: deque.NewDeque[*Info](),
 	}
+	h.shouldDisconnect = h.shouldDisconnectForForcePack
+	return h
 }
 
 var _ Handler = (*legacyHandler)(nil)
@@ -85,13 +93,13 @@ func (h *legacyHandler) QueueResourcePack(info *Info) error {
 }
 
 // with comments form java code
+//
+// The caller must hold the write lock.
 func (h *legacyHandler) tickResourcePackQueue() error {
-	h.Lock()
-	defer h.Unlock()
 	queued, ok := h.outstandingPacks.Front()
 	if ok {
 		// Check if the player declined a resource pack once already
-		if !h.prevResourceResponse {
+		if h.prevResourceResponse != nil && !*h.prevResourceResponse {
 			// If that happened we can flush the queue right away.
 			// Unless its 1.17+ and forced it will come back denied anyway
 			for h.outstandingPacks.Len() > 0 {
@@ -104,7 +112,8 @@ func (h *legacyHandler) tickResourcePackQueue() error {
 					Hash:   queued.Hash,
 					Status: DeclinedResponseStatus,
 				}
-				_, err := h.OnResourcePackResponse(resBundle)
+				// this loop already flushes the queue, do not tick again for every declined pack
+				_, err := h.handleResourcePackResponse(resBundle, false)
 				if err != nil {
 					return err
 				}
@@ -123,25 +132,28 @@ func (h *legacyHandler) tickResourcePackQueue() error {
 }
 
 func (h *legacyHandler) OnResourcePackResponse(bundle *ResponseBundle) (bool, error) {
-	return h.onResourcePackResponse(bundle, h.shouldDisconnectForForcePack)
-}
-
-func (h *legacyHandler) onResourcePackResponse(
-	bundle *ResponseBundle,
-	shouldDisconnectForForcePack func(e *PlayerResourcePackStatusEvent) bool,
-) (bool, error) {
 	h.Lock()
 	defer h.Unlock()
+	return h.handleResourcePackResponse(bundle, true)
+}
 
+// handleResourcePackResponse processes a response of the client or, with tick false, a
+// response made up by tickResourcePackQueue. The caller must hold the write lock.
+func (h *legacyHandler) handleResourcePackResponse(bundle *ResponseBundle, tick bool) (bool, error) {
 	peek := bundle.Status.Intermediate()
-	var queued *Info
+	var queued *Info // nil if the client responds while no pack is outstanding
 	if peek {
 		queued, _ = h.outstandingPacks.Front()
 	} else {
-		queued = h.outstandingPacks.PopFront()
+		queued, _ = h.outstandingPacks.TryPopFront()
 	}
 
-	e := newPlayerResourcePackStatusEvent(h.player, bundle.Status, bundle.ID, *queued)
+	var packInfo Info
+	if queued != nil {
+		packInfo = *queued
+	}
+	shouldDisconnectForForcePack := h.shouldDisconnect
+	e := newPlayerResourcePackStatusEvent(h.player, bundle.Status, bundle.ID, packInfo)
 	event.FireParallel(h.eventMgr, e, func(e *PlayerResourcePackStatusEvent) {
 		if shouldDisconnectForForcePack(e) {
 			h.player.Disconnect(&component.Translation{
@@ -152,10 +164,12 @@ func (h *legacyHandler) onResourcePackResponse(
 
 	switch bundle.Status {
 	case AcceptedResponseStatus:
-		h.prevResourceResponse = true
+		accepted := true
+		h.prevResourceResponse = &accepted
 		h.pendingPack = queued
 	case DeclinedResponseStatus:
-		h.prevResourceResponse = false
+		declined := false
+		h.prevResourceResponse = &declined
 	case SuccessfulResponseStatus:
 		h.appliedPack = queued
 		h.pendingPack = nil
@@ -170,7 +184,7 @@ func (h *legacyHandler) onResourcePackResponse(
 	}
 
 	var err error
-	if !peek {
+	if !peek && tick {
 		err = h.tickResourcePackQueue()
 	}
 	handled, err2 := h.HandleResponseResult(queued, bundle)
